@@ -73,6 +73,11 @@ func genC02(r *rand.Rand, t *Trace, thorough bool) {
 					o.trainFirst = true
 				}
 			}
+			if it%4 == 2 {
+				// (it is even: no id re-use in these histories, so the stored order is the order of the adds)
+				o.tailPattern = true
+				o.nops = 16 + r.Intn(20)
+			}
 			c := runVecHistory(r, p, o, t)
 			t.Emit(c, "kind."+names[kind], "metric."+string(metrics[p.metric]))
 		}
@@ -140,6 +145,14 @@ func genC14(r *rand.Rand, t *Trace, thorough bool) {
 				o.mirror, o.forceStyle = true, -1
 				p.dim, p.m, p.nbits, p.nlist = 2, 1, 1+r.Intn(2), 2
 				o.ntrain, o.trainFirst, o.allowDup = 8+2*r.Intn(4), true, false
+			}
+			if kind == 3 && it%5 == 4 {
+				// cosine with more cells than probes: the cells are ranked by the metric's own distance to their
+				// centroids (centroids of different lengths rank differently by angle and by Euclidean distance)
+				p.metric = 2
+				p.nlist = 4 + r.Intn(5)
+				o.ntrain, o.trainFirst = 10*p.nlist+r.Intn(10), true
+				o.nops = 20 + r.Intn(20)
 			}
 			if kind == 2 && it%5 == 3 {
 				// flat PQ over mirror-image codewords, queries a few ulps off the mirror plane: two codes whose
